@@ -12,7 +12,7 @@ import (
 
 func init() {
 	register(&Rule{
-		ID: "C07.name-is-not-identity", Prop: "C07", Also: []string{"C08", "C09", "C11", "C15", "C16"}, Floor: 30, Controls: 1,
+		ID: "C07.name-is-not-identity", Prop: "C07", Also: []string{"C08", "C09", "C11", "C15", "C16", "C18", "C20"}, Floor: 30, Controls: 1,
 		Doc: "the display name of a type (FriendlyName, FriendlyNameForConstraint, GoString — not injective: every object type is \"object\", every tuple type \"tuple\") is used only to build messages: it is never a map / cache key, a switch tag or an operand of == / != / < (type identity is decided by Equals alone)",
 		Run: runNameIsNotIdentity,
 	})
@@ -24,6 +24,9 @@ func init() {
 var typeNameFuncs = map[string]bool{
 	"cty.Type.FriendlyName": true, "cty.Type.FriendlyNameForConstraint": true, "cty.Type.friendlyNameMode": true,
 	"cty.Type.GoString": true, "cty.typeImpl.FriendlyName": true, "cty.typeImpl.GoString": true,
+	// the printed name of a Go type is not injective either: two function-local struct types of the same name, or
+	// two packages' types of the same name, print alike
+	"reflect.Type.String": true, "reflect.Type.Name": true,
 }
 
 // keyUse classifies the syntactic position of expression e (already known to carry a type's display
@@ -2326,6 +2329,22 @@ func runPredictionIgnoresNullness(rr *RuleRun) {
 						if br, ok := bs.(*ast.BranchStmt); ok && br.Tok == token.CONTINUE {
 							skips = true
 						}
+					}
+					// … or replaces the argument's type under the null test (tys[i] = something else)
+					rewrites := false
+					inspectNoLit(is.Body, func(m ast.Node) bool {
+						if as, ok := m.(*ast.AssignStmt); ok {
+							for _, l := range as.Lhs {
+								if ix, ok := l.(*ast.IndexExpr); ok && objOf(info, ix.X) == tys {
+									rewrites = true
+								}
+							}
+						}
+						return true
+					})
+					if nullTest && rewrites && !bad {
+						bad = true
+						rr.Violation(key, is.Pos(), fmt.Sprintf("the type recorded in %s for an argument is replaced when the argument is null ('%s'): the type-only prediction sees the argument's declared type whether or not it is null, so a typed null that decides the unified type makes the type predicted from values differ from the type predicted from types", tys.Name(), trunc(exprStr(is.Cond), 40)))
 					}
 					if nullTest && skips && !bad {
 						bad = true
@@ -5431,9 +5450,16 @@ func init() {
 }
 
 func runProductPrecision(rr *RuleRun) {
+	// Multiply, and Modulo, whose remainder is val - other*floor(val/other): the product inside it has to be exact too
+	for _, name := range []string{"Value.Multiply", "Value.Modulo"} {
+		productPrecisionIn(rr, name)
+	}
+}
+
+func productPrecisionIn(rr *RuleRun, method string) {
 	c := rr.Ctx
 	info := c.Info("cty")
-	fd := rr.MustDecl("cty", "Value.Multiply")
+	fd := rr.MustDecl("cty", method)
 	if fd == nil {
 		return
 	}
@@ -5446,7 +5472,7 @@ func runProductPrecision(rr *RuleRun) {
 			return true
 		}
 		n++
-		key := "cty.Value.Multiply/" + trunc(exprStr(call), 40)
+		key := "cty." + method + "/" + trunc(exprStr(call), 40)
 		// the receiver of Mul and where its precision was set
 		ro := rootObj(info, call.Fun.(*ast.SelectorExpr).X)
 		var precArg ast.Expr
@@ -5466,7 +5492,7 @@ func runProductPrecision(rr *RuleRun) {
 			return true
 		})
 		if precArg == nil {
-			rr.Violation(key, call.Pos(), "the product is computed into a big.Float whose precision was not set before the multiplication: a zero-precision receiver takes the larger operand precision and rounds the product")
+			rr.Violation(key, call.Pos(), "the product is computed into a big.Float whose precision was not set (SetPrec) before the multiplication: it is zero, or inherited from one operand through Copy, so the receiver takes at most the larger operand precision and rounds the product — for Modulo, 1e16 (a float64) % 3 comes out as 0")
 			return true
 		}
 		if _, isConst := constInt(info, precArg); isConst {
